@@ -35,7 +35,7 @@ echo "confirm: demo without patch rc=$base, suite with patch rc=$suite, demo wit
 det=""
 git -C /repo apply $OUT/patch.diff || { echo "cannot apply to /repo"; exit 3; }
 for p in $PROPS; do
-  (cd /verif && timeout 1800 bin/vcheck -p $p -tier quick > /tmp/check_${ID}_$p.out 2>&1); rc=$?
+  (cd /verif && timeout 1800 ${VCHECK:-bin/vcheck} -p $p -tier quick > /tmp/check_${ID}_$p.out 2>&1); rc=$?
   nv=$(grep -c '^VIOLATION' /tmp/check_${ID}_$p.out)
   det="$det $p:rc=$rc:violations=$nv"
   grep -E '^(VIOLATION|  (conv|kernel)|SPURIOUS|UNCONFIRMED|TOOL-ERROR)' /tmp/check_${ID}_$p.out | head -6
